@@ -45,7 +45,8 @@ META = {
         "counter fast path violate it); (a) the candidate rebuilt in the loop is <base><separator><counter> with a base that has "
         "no definition inside the loop; (b) (separator, first suffix, step) equal the plugin's; (c) the registry handed to the "
         "uniquifier is the one that receives `[slug] = record`; (e) that registry is assigned an empty dict on every path of a "
-        "method that render() always runs (not only in __init__). "
+        "method that render() always runs (not only in __init__); (f) no code reached from the token handlers or nested renders "
+        "(nested functions included) empties the registry attribute or puts back an earlier snapshot of it. "
         "R2 agreement with the plugin: (a) the slug regex as a parsed tree with canonical character-class order, flags and "
         "replacement; (b) the ordered str-method pipeline of the default slug function (locals inlined, idempotent duplicates "
         "collapsed, strip/lower commute); (c) the title is gathered - as a comprehension, an append/join loop, a `+=` loop or in a "
@@ -61,7 +62,8 @@ META = {
         "R4 the configured slug function wins when set and is called; the call is under except Exception/BaseException/bare; "
         "all paths through that handler issue exactly one HEADING_SLUG warning (helpers that warn on all their paths are "
         "followed), no other warning, store nothing into the registry or node['slug'], and cannot raise. "
-        "R5 the record stored per slug is classified by its expressions (LINE, ID, TITLE); every reader of every publication "
+        "R5 the record stored per slug is classified by its expressions (LINE, ID, TITLE); its id is read from the registered "
+        "`ids` of the node, not recomputed with make_id / a name normaliser (docutils de-duplicates registered ids); every reader of every publication "
         "channel of the registry (document attribute, env.metadata key, per-document map in an attribute) takes fields out by "
         "tuple unpacking, record variable, .get, positional index or .items()/.values() loops; the ID position must reach an id "
         "sink (['refid'], make_refnode targetid, refid=/targetid= keywords), only the TITLE position a text sink, also through "
@@ -543,7 +545,7 @@ def _registry_resets(corpus: Corpus, fi: FunctionInfo, reg: ast.expr) -> tuple[l
                 v = n.value
                 empty = (isinstance(v, ast.Dict) and not v.keys) or (isinstance(v, ast.Call) and dotted(v.func) in ("dict", "OrderedDict") and not v.args and not v.keywords)
                 if not empty:
-                    raise Unsupported(f"{m.module.site(n)}: `{unparse(reg)}` is assigned something other than an empty dict")
+                    continue  # judged by the "registry only grows" clause
                 cfg = get_cfg(m)
                 every_path = cfg.postdominates(cfg.stmt_of(n), "ENTRY")
                 if m.fq in reach and m.name != "__init__" and every_path:
@@ -551,6 +553,53 @@ def _registry_resets(corpus: Corpus, fi: FunctionInfo, reg: ast.expr) -> tuple[l
                 else:
                     elsewhere.append((m, n, "only on some paths" if (m.fq in reach and m.name != "__init__") else "not run by render()"))
     return per_render, elsewhere
+
+
+def _registry_rebinds(corpus: Corpus, fi: FunctionInfo, reg: ast.expr) -> list[tuple[FunctionInfo, ast.stmt, str]]:
+    """Assignments to the registry attribute in code that runs while the tokens of a document are rendered
+    (token handlers, nested renders and everything they reach, nested functions included): (function, stmt, verdict)."""
+    g = get_callgraph(corpus)
+    entries = []
+    for c in corpus.mro(fi.cls):
+        for m in c.methods.values():
+            if (m.name.startswith("render_") or m.name == "nested_render_text") and m not in entries:
+                entries.append(m)
+    for sc in corpus.subclasses(fi.cls):
+        for m in sc.methods.values():
+            if m.name.startswith("render_") and m not in entries:
+                entries.append(m)
+    mid = g.reachable(entries)
+    reg_text = unparse(reg)
+    out = []
+    for fq in sorted(mid):
+        try:
+            m = corpus.func(fq.replace("myst_parser.", "", 1))
+        except Exception:
+            continue
+        if m.is_lambda:
+            continue
+        for n in walk_local(m.node):
+            tg = n.targets if isinstance(n, ast.Assign) else ([n.target] if isinstance(n, ast.AnnAssign) and n.value is not None else [])
+            if not any(isinstance(t, ast.Attribute) and unparse(t) == reg_text for t in tg):
+                continue
+            v = n.value
+            empty = (isinstance(v, ast.Dict) and not v.keys) or (isinstance(v, ast.Call) and dotted(v.func) in ("dict", "OrderedDict") and not v.args and not v.keywords)
+            if empty:
+                out.append((m, n, "reset"))
+                continue
+            if reg_text in unparse(v):
+                out.append((m, n, "undecided"))  # rebuilt from itself (copy / functional update)
+                continue
+            snap = False
+            if isinstance(v, ast.Name):
+                scope: FunctionInfo | None = m
+                while scope is not None and not snap:
+                    for d in _assigns_to(scope, v.id):
+                        if getattr(d, "value", None) is not None and reg_text in unparse(d.value):
+                            snap = True
+                    scope = scope.parent_func
+            out.append((m, n, "rollback" if snap else "undecided"))
+    return out
 
 
 def _r1_registry_reset(corpus: Corpus, rep: Report, fi: FunctionInfo, reg: ast.expr) -> None:
@@ -575,6 +624,26 @@ def _r1_registry_reset(corpus: Corpus, rep: Report, fi: FunctionInfo, reg: ast.e
         )
     else:
         raise Unsupported(f"{fi.cls.fq}: no assignment of an empty dict to `{unparse(reg_node)}` found")
+    # (f) while the tokens of a document are rendered the registry only grows
+    kf = f"{fi.cls.fq}|slug registry only grows while a document is rendered"
+    rebinds = _registry_rebinds(corpus, fi, reg_node)
+    bad = [x for x in rebinds if x[2] in ("reset", "rollback")]
+    if bad:
+        m, n, why = bad[0]
+        rep.violation(
+            "C10.R1",
+            kf,
+            m.module.site(n),
+            f"`{short(n, 60)}` in {m.qualname} "
+            + ("puts back a snapshot taken earlier" if why == "rollback" else "empties the registry")
+            + " in the middle of a document (the function is reached from the token handlers / nested renders): slugs recorded in between are forgotten, so a later "
+            "heading with the same title receives the same anchor again and '#slug' of the forgotten heading no longer resolves to it",
+        )
+    elif rebinds:
+        m, n, _why = rebinds[0]
+        raise Unsupported(f"{m.module.site(n)}: the slug registry is re-bound while a document is rendered (`{short(n, 50)}`); effect not decided")
+    else:
+        rep.ok("C10.R1", kf, fi.site(), "no assignment to the registry attribute in code reached from the token handlers")
 
 
 def _r1_registry(corpus: Corpus, rep: Report, cus: FunctionInfo) -> None:
@@ -1886,6 +1955,21 @@ def uniq_taken_param(corpus: Corpus) -> str:
 # R5 record layout
 
 
+_ID_MAKERS = ("make_id", "fully_normalize_name", "whitespace_normalize_name", "escape2null", "slugify", "default_slugify")
+
+
+def _recomputed_id(fi: FunctionInfo, e: ast.expr) -> bool:
+    def made(x: ast.expr) -> bool:
+        return isinstance(x, ast.Call) and (dotted(x.func) or "").split(".")[-1] in _ID_MAKERS
+
+    if made(e):
+        return True
+    if isinstance(e, ast.Name):
+        ds = _assigns_to(fi, e.id)
+        return bool(ds) and all(isinstance(d, ast.Assign) and made(d.value) for d in ds)
+    return False
+
+
 def _writer(corpus: Corpus) -> tuple[FunctionInfo, ast.Assign, str, list[str]]:
     cus = corpus.func(CUS)
     taken = uniq_taken_param(corpus)
@@ -1916,7 +2000,12 @@ def _writer(corpus: Corpus) -> tuple[FunctionInfo, ast.Assign, str, list[str]]:
                 kind = "TITLE"
         elif isinstance(e, ast.Call) and (dotted(e.func) or "").split(".")[-1] in ("clean_astext", "astext"):
             kind = "TITLE"
+        if kind == "OTHER" and _recomputed_id(fi, e):
+            kind = "ID*"  # an id computed from the name instead of read from the node's registered ids
         kinds.append(kind)
+    if "ID" not in kinds and kinds.count("ID*") == 1 and kinds.count("TITLE") == 1:
+        return fi, st, reg, kinds
+    kinds = ["OTHER" if k_ == "ID*" else k_ for k_ in kinds]
     if kinds.count("ID") != 1 or kinds.count("TITLE") != 1:
         raise Unsupported(f"{fi.module.site(st)}: cannot classify the slug record {short(st.value, 60)} (kinds {kinds})")
     return fi, st, reg, kinds
@@ -2039,7 +2128,23 @@ def r5_record_layout(corpus: Corpus, rep: Report, tier: str):
     rep.rule("C10.R5", "slug record (LINE, ID, TITLE): every reader of the exported registry sends the ID position to refid/targetid and the TITLE position to text, and searches the table under the link fragment as written")
     wfi, wst, reg, kinds = _writer(corpus)
     rep.saw_function(wfi.fq)
-    p_id, p_title = kinds.index("ID"), kinds.index("TITLE")
+    kw_ = f"{wfi.fq}|record id is the registered id of the heading's own node"
+    if "ID*" in kinds:
+        p_id = kinds.index("ID*")
+        bad_e = wst.value.elts[p_id]
+        rep.violation(
+            "C10.R5",
+            kw_,
+            wfi.module.site(bad_e),
+            f"the id stored in the slug record is `{short(bad_e, 50)}`, recomputed from the heading's name, not the id docutils registered for the node: for the second of two "
+            "equal titles docutils registers `x-1` (and `section-1`-style ids for names without ASCII letters) while the recomputed id is `x`, so '#x-1' lands on the first heading "
+            "or on no element at all",
+        )
+        kinds = ["ID" if k_ == "ID*" else k_ for k_ in kinds]
+    else:
+        p_id = kinds.index("ID")
+        rep.ok("C10.R5", kw_, wfi.module.site(wst.value.elts[p_id]), f"`{short(wst.value.elts[p_id], 40)}`")
+    p_title = kinds.index("TITLE")
     rep.listed("C10.R5", f"{wfi.fq}|writer layout", wfi.module.site(wst), f"{short(wst, 80)} -> {kinds}")
     exports = _exports(corpus, wfi, reg)
     if not exports:
@@ -2532,6 +2637,21 @@ def mutants(corpus: Corpus):
             ind = " " * d0.col_offset
             fast = f'if {sh["base"]} in {sh["taken"]}:\n{ind}    return f"{{{sh["base"]}}}{sh["sep"]}{{len(list({sh["taken"]}))}}"\n{ind}'
             out.append(Mutant("c10-uniq-fast-path-untested", "C10.R1", base.rel, splice(src, d0, fast + segment(src, d0)), expect="tested against the registry"))
+    # class "the registry shrinks in the middle of a document": snapshot/rollback or reset around a nested render
+    for fi, call in _cus_call_sites(corpus):
+        reg = arg_or_kw(call, 1, "slugs")
+        if reg is None or fi.module is not base or fi.cls is None:
+            continue
+        nrt = corpus.lookup_method(fi.cls, "nested_render_text")
+        if nrt is not None and nrt.module is base:
+            body = [st for st in nrt.node.body if not (isinstance(st, ast.Expr) and isinstance(st.value, ast.Constant))]
+            first, last = body[0], body[-1]
+            ind = " " * first.col_offset
+            rtxt = unparse(reg)
+            s2 = splice(src, last, segment(src, last) + f"\n{ind}{rtxt} = _saved_slugs")
+            s2 = splice(s2, first, f"_saved_slugs = dict({rtxt})\n{ind}" + segment(src, first))
+            out.append(Mutant("c10-registry-rolled-back-after-nested-render", "C10.R1", base.rel, s2, expect="only grows"))
+            out.append(Mutant("c10-registry-reset-in-nested-render", "C10.R1", base.rel, splice(src, first, f"{rtxt} = {{}}\n{ind}" + segment(src, first)), expect="only grows"))
     # class "the registry outlives the document": initialised once / reset only on some paths
     for fi, call in _cus_call_sites(corpus):
         reg = arg_or_kw(call, 1, "slugs")
@@ -2713,7 +2833,12 @@ def mutants(corpus: Corpus):
     # ---- R5
     wfi, wst, reg, kinds = _writer(corpus)
     elts = wst.value.elts
+    kinds = ["ID" if k_ == "ID*" else k_ for k_ in kinds]
     p_id, p_t = kinds.index("ID"), kinds.index("TITLE")
+    if not _recomputed_id(wfi, elts[p_id]):
+        # class "the record's id is recomputed instead of read from the node"
+        nm_ = [x.id for x in ast.walk(elts[p_t]) if isinstance(x, ast.Name)]
+        out.append(Mutant("c10-record-id-recomputed", "C10.R5", wfi.module.rel, splice(wfi.module.src, elts[p_id], f"nodes.make_id({nm_[0] if nm_ else 'name'})"), expect="registered id"))
     order = list(range(len(elts)))
     order[p_id], order[p_t] = order[p_t], order[p_id]
     out.append(Mutant("c10-writer-record-swapped", "C10.R5", wfi.module.rel, splice(wfi.module.src, wst.value, "(" + ", ".join(segment(wfi.module.src, elts[i]) for i in order) + ")"), expect="unpack", canary=False))
